@@ -82,11 +82,29 @@ def strategy(tier):
     return rsvlib.cases(max_ops=8 if tier == 'quick' else 12)
 
 
+def _dn_to_id(dn):
+    """'cell=C,allocation=A,tenant=sub,tenant=top,ou=...' -> 'top:sub/A/C'.
+    The harness's own reading of where a record was written (the inverse of
+    how the request id is turned into a dn), independent of the id mapping of
+    the code under test."""
+    parts = [part.split('=', 1) for part in dn.split(',')]
+    assert parts[0][0] == 'cell' and parts[1][0] == 'allocation', dn
+    tenants = [value for key, value in parts[2:] if key == 'tenant']
+    return '%s/%s/%s' % (':'.join(reversed(tenants)), parts[1][1],
+                         parts[0][1])
+
+
 def _stored(directory):
-    """Normalised view of what the directory holds, via the real list()."""
+    """Normalised view of what the directory holds.  Identity is the dn the
+    record sits at; partition / amounts / traits are what the system reports
+    for that entry (the real from_entry, e.g. no partition attribute reads
+    as _default)."""
     out = {}
-    for rec in directory.cell_alloc.list({}):
-        out[rec['_id']] = {
+    for dn, entry in directory.conn.entries.items():
+        if 'tmCellAllocation' not in entry.get('objectClass', []):
+            continue
+        rec = directory.cell_alloc.from_entry(entry, dn)
+        out[_dn_to_id(dn)] = {
             'partition': rec['partition'],
             'amt': rsvlib.amounts(rec),
             'traits': sorted(set(rec['traits'])),
@@ -191,6 +209,12 @@ def execute(case, stats):
             shares = model.sharers(cell, eff_part, eff_traits, rid)
             if shares:
                 stats.count('shares_limited_trait')
+            if any(rsvlib.related(rid, other) and
+                   rsv['partition'] == eff_part
+                   for other, rsv in model.rsv.items()):
+                # a parent / sub tenant holds an allocation of the same
+                # name, reserved in the same cell and partition
+                stats.count('same_name_under_parent_tenant')
             if _near_limit(model, cell, eff_part, eff_traits, amt, rid):
                 stats.count('near_shared_trait_limit')
                 nontrivial = True
@@ -435,6 +459,28 @@ def fixed_cases():
                               'partition': '_default'}},
                     {'op': 'update', 'id': 't1/dev/c1', 'aim': 'under',
                      'rsrc': {'cpu': '1%', 'memory': '1G', 'disk': '1G'}}],
+        }),
+        # t1/prod and t1:s/prod (sub tenant, same allocation name) are two
+        # reservations: each counts against the other and neither counts
+        # against itself
+        ('same-name-under-sub-tenant', {
+            'partitions': [_p('p1', '200%', '20G', '20G')],
+            'existing': [{'id': 't1:s/prod/c1',
+                          'rsrc': {'cpu': '100%', 'memory': '10G',
+                                   'disk': '10G', 'partition': 'p1',
+                                   'traits': []}}],
+            'ops': [{'op': 'create', 'id': 't1/prod/c1', 'aim': 'over',
+                     'rsrc': {'cpu': '101%', 'memory': '1G', 'disk': '1G',
+                              'partition': 'p1'}},
+                    {'op': 'create', 'id': 't1/prod/c1', 'aim': 'exact',
+                     'rsrc': {'cpu': '100%', 'memory': '10G', 'disk': '10G',
+                              'partition': 'p1'}},
+                    {'op': 'update', 'id': 't1:s/prod/c1', 'aim': 'exact',
+                     'rsrc': {'cpu': '100%', 'memory': '10240M',
+                              'disk': '10G', 'partition': 'p1'}},
+                    {'op': 'update', 'id': 't1/prod/c1', 'aim': 'over',
+                     'rsrc': {'cpu': '100%', 'memory': '10G',
+                              'disk': '10241M', 'partition': 'p1'}}],
         }),
         # an update that re-sends the stored amounts and only adds a limited
         # trait is still checked against that trait's limit
